@@ -193,6 +193,8 @@ partial def toProg (sites : List (String × SiteSpec)) (fuel : Nat) (env : Env) 
       toProg sites fuel ((x, .ret (.atom (evalExpr env (fieldD st "e" Json.null)))) :: env) rest
     | some (.str "discard") => .discard (toProg sites fuel env rest)
     | some (.str "force") => .force (toProg sites fuel env rest)
+    | some (.str "enable") => .setEnabled true (toProg sites fuel env rest)
+    | some (.str "disable") => .setEnabled false (toProg sites fuel env rest)
     | some (.str "rec") =>
       .recordData ((asStr (fieldD st "k" Json.null)).toOption.getD "") (.atom (evalExpr env (fieldD st "e" Json.null)))
         (toProg sites fuel env rest)
